@@ -38,6 +38,7 @@ def execute(cfg, prefix, on_point=None, line=False, seam='fork'):
     N, R, mask = cfg['N'], cfg['R'], cfg['mask']
     s = sched.Sched(prefix, on_point, line_module=m.__file__ if line else None)
     s.extra_state = lambda: module_state(m)
+    s.model_feeder = bool(cfg.get('feeder'))
     saved = (m.mp, m.threading, m.queue)
     m.mp, m.threading, m.queue = s.mp_mod(), s.threading_mod(), s.queue_mod()
     full = (1 << R) - 1
@@ -112,7 +113,7 @@ def judge(cfg, s, result, exc, deadlock, seam='fork'):
         v.append(('delivery', 'delivered %r, expected (in any order) %r' % (result, expected(cfg, seam))))
     if s.timeouts_fired:
         v.append(('needs-timeout', 'a worker was still running when joined: the 10 s grace period had to expire'))
-    unfinished = [t.name for t in s.threads if t.started and not t.finished]
+    unfinished = [t.name for t in s.threads if t.started and not t.finished and not t.daemon]
     if unfinished:
         v.append(('leak', 'threads/processes never finished: %r' % unfinished))
     errs = [t for t in s.threads if t.exc is not None]
@@ -324,6 +325,9 @@ def tasks(tier):
         out.append({'cfg': {'N': 2, 'R': 2, 'mask': 2}, 'mode': 'stateful', 'seam': 'flow'})
         for N_, R_, mask_ in ((1, 2, 3), (1, 3, 5), (2, 2, 3), (2, 3, 6)):
             out.append({'cfg': {'N': N_, 'R': R_, 'mask': mask_, 'slow_upstream': True}, 'mode': 'stateful'})
+        # multiprocessing.Queue's feeder threads modelled (put = local buffer; a feeder moves items to the pipe later)
+        for N_, R_, mask_ in ((1, 1, 1), (1, 2, 1), (1, 2, 2), (1, 3, 1), (1, 3, 5)):
+            out.append({'cfg': {'N': N_, 'R': R_, 'mask': mask_, 'feeder': True}, 'mode': 'stateful', 'max_exec': 60000})
         for N_, R_, mask_, boom_ in ((1, 2, 3, 1), (1, 3, 7, 2), (2, 2, 3, 3), (2, 3, 5, 4)):
             out.append({'cfg': {'N': N_, 'R': R_, 'mask': mask_, 'boom': boom_}, 'mode': 'stateful'})
         out.append({'cfg': {'N': 1, 'R': 1, 'mask': 1}, 'mode': 'stateful', 'seam': 'chain2'})
@@ -333,6 +337,10 @@ def tasks(tier):
         out.append({'cfg': {'N': 2, 'R': 2, 'mask': 3}, 'mode': 'deviation', 'bound': 2})
         out.append({'cfg': {'N': 2, 'R': 2, 'mask': 3}, 'mode': 'line-dev', 'bound': 1})
     else:
+        for N_, Rs in ((1, (1, 2, 3)), (2, (1, 2))):
+            for R_ in Rs:
+                for mask_ in range(1, 1 << R_):
+                    out.append({'cfg': {'N': N_, 'R': R_, 'mask': mask_, 'feeder': True}, 'mode': 'stateful', 'max_exec': 250000})
         for N_ in (1, 2, 3):
             for R_ in (1, 2, 3):
                 for mask_ in range(1, 1 << R_):
